@@ -114,9 +114,13 @@ func Check(c *Case) (res kit.Result) {
 			res.Failf("%s: Sample returned %s, the parent's sample is %s (root position %d)", what, got, model[pos], pos)
 			return
 		}
-		if bi := view.BufferIndex(c.Ch, i); bi != C*i+c.Ch {
-			res.Failf("%s: BufferIndex(%d,%d) = %d, want the parent's interleaved position %d", what, c.Ch, i, bi, C*i+c.Ch)
-			return
+		// the index the view reports for i is the parent's position of (its channel, i),
+		// whatever is passed as the first argument (the view has one channel)
+		for _, arg := range []int{c.Ch, 0, (c.Ch + 1) % C, C - 1} {
+			if bi := view.BufferIndex(arg, i); bi != C*i+c.Ch {
+				res.Failf("%s: BufferIndex(%d,%d) = %d, want the parent's interleaved position of (channel %d, index %d) = %d", what, arg, i, bi, c.Ch, i, C*i+c.Ch)
+				return
+			}
 		}
 		nv := kit.IV(int64(100 + (i+c.Ch)%27))
 		if p, v := kit.Try(func() { view.SetSample(i, nv) }); p {
@@ -219,9 +223,11 @@ func checkMoved(c *Case, res *kit.Result, parent kit.AnyBuf, view kit.AnyChan, f
 			res.Failf("%s: Sample returned %s, the parent's sample is %s", what, got, model[pos])
 			return *res
 		}
-		if bi := view.BufferIndex(c.Ch, i); bi != pos {
-			res.Failf("%s: BufferIndex = %d, want %d", what, bi, pos)
-			return *res
+		for _, arg := range []int{c.Ch, 0, C - 1} {
+			if bi := view.BufferIndex(arg, i); bi != pos {
+				res.Failf("%s: BufferIndex(%d,%d) = %d, want %d", what, arg, i, bi, pos)
+				return *res
+			}
 		}
 		nv := kit.IV(int64(100 + (i+c.Ch)%27))
 		view.SetSample(i, nv)
